@@ -118,6 +118,24 @@ def handler(case):
         if any(l["k"] == "act" and l["cls"] == "Custom" for l in case["layers"]):
             from tangermeme.deep_lift_shap import _nonlinear
             kw["additional_nonlinear_ops"] = {CustomSq: _nonlinear, CustomCube: _nonlinear}
+        if case["id"] % 5 == 3:
+            # the SAME model object was used in single precision before (same shapes), then converted back: whatever a call keeps on
+            # the modules between calls must not leak the earlier precision into this one
+            import copy
+            sd = copy.deepcopy(model.state_dict())
+            try:
+                model.float()
+                kwf = dict(kw)
+                if "references" in kwf and isinstance(kwf["references"], torch.Tensor):
+                    kwf["references"] = kwf["references"].float()
+                with warnings.catch_warnings():
+                    warnings.simplefilter("ignore")
+                    deep_lift_shap(model, X.float(), target=case["target"], batch_size=case["bs"], raw_outputs=True, device="cpu", **kwf)
+            except Exception:
+                pass
+            finally:
+                model.double()
+                model.load_state_dict(sd)
         with warnings.catch_warnings(record=True) as wl:
             warnings.simplefilter("always")
             try:
